@@ -129,7 +129,7 @@ Proof.
   assert (Hne : forall o, reg s o -> o <> next s) by (intros o Ho; apply (reg_lt s HI) in Ho; lia).
   assert (HI1 : Inv (mkState (upd (store s) (next s)
              (mkObj n parent c (kind_of c (match parent with None => None | Some q => Some (ocl (store s q)) end) k)
-                    [] [] [] [] false)) (N.succ (next s)) (allobj s) (roots s) (S (depthb s)))).
+                    [] [] [] [] false)) (N.succ (next s)) (allobj s) (roots s) (S (depthb s)) (unproc s))).
   { apply (Inv_frame s); cbn; auto; try lia. intros o Ho. rewrite upd_other by (apply Hne; exact Ho). apply same_core_refl. }
   split; [exact HI1|]. repeat split; auto.
   - intros Hr. apply (Hne (next s)); [exact Hr | reflexivity].
@@ -270,7 +270,7 @@ Section AddChildObject.
     Let fn' := pq ++ [dup_name n i].
     Let st2 := upd st1 prev (with_sup (with_name (st1 prev) (dup_name n i)) true).
     Let s1 := set_store s st1.
-    Let s2 := mkState st2 (next s) m1 (roots s) (depthb s).
+    Let s2 := mkState st2 (next s) m1 (roots s) (depthb s) (unproc s).
     Hypothesis HT : subtree s1 prev = Some T.
     Hypothesis Hm1 : del_walk s1 T (allobj s) = Some m1.
     Hypothesis Hm2 : set_walk s2 T m1 = Some m2.
@@ -697,17 +697,24 @@ Proof.
     + destruct (Hdup pq first Hpq Ef) as [Hfc ->].
       assert (Hfne : first <> ob) by (intros E; apply Hun; apply Hreg; rewrite <- E; exists (pq ++ [n]); exact Ef).
       rewrite (Hoth first Hfne), Hfc in H. rewrite Hcl in H. cbn in H. inversion H; subst s'. exact HI1.
-    + apply (add_object_child_inv s1 ob q n pq s' HI1 Hlt Hun); try (rewrite Hst; reflexivity); try assumption.
+    + assert (HI1u : Inv (set_unproc s1 (unproc s1 ++ [ob])))
+        by (apply (Inv_frame s1); cbn; auto; try lia; intros; apply same_core_refl).
+      apply (add_object_child_inv (set_unproc s1 (unproc s1 ++ [ob])) ob q n pq s' HI1u Hlt Hun);
+        cbn [store set_unproc allobj]; try (rewrite Hst; reflexivity); try assumption.
       * apply Hreg. exact Hq.
       * rewrite (Hoth q Hqne), Hqp. reflexivity.
-      * apply Hfp; assumption.
+      * apply (Hfp q pq Hq Hpq).
       * rewrite Hcl. destruct pkg; discriminate.
       * intros _. rewrite (Hoth q Hqne). exact Hqp.
       * intros prev Hprev. rewrite Ha1, Ef in Hprev. discriminate.
   - assert (Hobp : fullpath s1 ob = Some [n]).
     { unfold fullpath. rewrite Hdep. cbn. rewrite Hst. reflexivity. }
     rewrite Hobp in H. rewrite Ha1 in H. destruct Hg as [Hnew|[first [Hf [Hfc ->]]]].
-    + rewrite Hnew in H. apply (add_object_root_inv s1 ob n s' HI1 Hlt Hun); try (rewrite Hst; reflexivity); try assumption.
+    + rewrite Hnew in H.
+      assert (HI1u : Inv (set_unproc s1 (unproc s1 ++ [ob])))
+        by (apply (Inv_frame s1); cbn; auto; try lia; intros; apply same_core_refl).
+      apply (add_object_root_inv (set_unproc s1 (unproc s1 ++ [ob])) ob n s' HI1u Hlt Hun);
+        cbn [store set_unproc allobj]; try (rewrite Hst; reflexivity); try assumption.
       rewrite Ha1. exact Hnew.
     + rewrite Hf in H.
       assert (Hfne : first <> ob) by (intros E; apply Hun; apply Hreg; rewrite <- E; exists [n]; exact Hf).
